@@ -10,10 +10,10 @@ import (
 
 func init() {
 	register(&ruleSet{
-		id:    "C14",
-		title: "the command line is a faithful wrapper",
-		run:   runC14,
-		decided: "exit discipline: every error source of cli.Run is tested, its failure edge writes a diagnostic to stderr and returns a non-zero constant, `return 0` is only reachable with every dominating error source known nil, and main passes Run's result to os.Exit unchanged; argument fidelity: the program text handed to the interpreter is the -f file's bytes or the first argument unchanged, the file list is the remaining arguments in order, each opened once and handed over as the reader itself (no read-ahead wrapper), stdin as os.Stdin under the name <stdin>, the selectors are the flag accumulator unchanged, output goes to os.Stdout; -o: one JSON string, obtained after a successful run, written as data to stdout or to a truncated file, refused for several inputs; inside the interpreter the roots selected for one JSON value are collected in a list created for that value.",
+		id:         "C14",
+		title:      "the command line is a faithful wrapper",
+		run:        runC14,
+		decided:    "exit discipline: every error source of cli.Run is tested, its failure edge writes a diagnostic to stderr and returns a non-zero constant, `return 0` is only reachable with every dominating error source known nil, and main passes Run's result to os.Exit unchanged; argument fidelity: the program text handed to the interpreter is the -f file's bytes or the first argument unchanged, the file list is the remaining arguments in order, each opened once and handed over as the reader itself (no read-ahead wrapper), stdin as os.Stdin under the name <stdin>, the selectors are the flag accumulator unchanged, output goes to os.Stdout; -o: one JSON string, obtained after a successful run, written as data to stdout or to a truncated file, refused for several inputs; inside the interpreter the roots selected for one JSON value are collected in a list created for that value.",
 		notDecided: "the README's `-r E` ≡ `BEGINFILE { $ = E }` equivalence as such (a relation between two evaluator runs); stdin-vs-file equivalence beyond `the same reader interface is passed through`.",
 	})
 }
@@ -193,9 +193,9 @@ func c14R2(c *Ctx) {
 	c.check(prog == `phi("" | flag.Args()[0] | string(os.ReadFile(*flag.String("f", "", "the program file to run"))#0))`, "R2", "program-text", p.InstrPos(ep), "program = -f file bytes | first argument | empty", "the program text passed to the interpreter is "+prog)
 	files := p.Render(a[1])
 	pathList := `phi(append(phi(flag.Args() | flag.Args()[1:] | nil), ["<stdin>"][:]) | phi(flag.Args() | flag.Args()[1:] | nil))`
-	wantFiles := `φinputFiles⟨[][:0] | append(φinputFiles, [lang.InputFile{Name: "<stdin>", Reader: Stdin}][:]) | append(φinputFiles, [lang.InputFile{Name: ` + pathList + `[i@` + pathList + `], Reader: os.Open(` + pathList + `[i@` + pathList + `])#0}][:])⟩`
+	wantFiles := `φslice⟨[][:0] | append(φslice, [lang.InputFile{Name: "<stdin>", Reader: Stdin}][:]) | append(φslice, [lang.InputFile{Name: ` + pathList + `[i@` + pathList + `], Reader: os.Open(` + pathList + `[i@` + pathList + `])#0}][:])⟩`
 	_ = wantFiles
-	reFiles := regexp.MustCompile(`^φinputFiles⟨\[\]\[:0\] \| append\(φinputFiles, \[lang\.InputFile\{Name: "<stdin>", Reader: Stdin\}\]\[:\]\) \| append\(φinputFiles, \[lang\.InputFile\{Name: (.+)\[i@(.+)\], Reader: os\.Open\((.+)\[i@(.+)\]\)#0\}\]\[:\]\)⟩$`)
+	reFiles := regexp.MustCompile(`^φslice⟨\[\]\[:0\] \| append\(φslice, \[lang\.InputFile\{Name: "<stdin>", Reader: Stdin\}\]\[:\]\) \| append\(φslice, \[lang\.InputFile\{Name: (.+)\[i@(.+)\], Reader: os\.Open\((.+)\[i@(.+)\]\)#0\}\]\[:\]\)⟩$`)
 	mm := reFiles.FindStringSubmatch(files)
 	okFiles := mm != nil && mm[1] == mm[2] && mm[2] == mm[3] && mm[3] == mm[4] && strings.HasPrefix(mm[1], "phi(append(phi(flag.Args() | flag.Args()[1:] | nil), ")
 	c.check(okFiles, "R2", "input-files", p.InstrPos(ep), "files in argument order, each the opened file itself", "the input list passed to the interpreter is not `for each path in order: {Name: path, Reader: os.Open(path)}` / `{<stdin>, os.Stdin}`: "+files)
@@ -333,7 +333,9 @@ func rootsPerValue(c *Ctx, rule string) {
 	miss, extra := diffSets(got, want)
 	if len(miss)+len(extra) > 0 {
 		// tolerate the rendering of the decode target variable
-		norm := func(s string) string { return strings.NewReplacer("*&var:interface{}", "V", "*&var:any", "V", "var:interface{}", "V", "var:any", "V").Replace(s) }
+		norm := func(s string) string {
+			return strings.NewReplacer("*&var:interface{}", "V", "*&var:any", "V", "var:interface{}", "V", "var:any", "V").Replace(s)
+		}
 		g2, w2 := map[string]bool{}, map[string]bool{}
 		for k := range got {
 			g2[norm(k)] = true
